@@ -247,7 +247,11 @@ def _r1_typing(ctx):
         for s, c in anti:
             ctx.violated(fi_n or ft, s, "find_turns.%s: comparison %s is sign dependent (not invariant under negation)"
                          % (nf.name, norm_text(c)))
-    ty.env["nans"] = "I"
+    for st in ft.node.body:
+        if isinstance(st, ast.Assign) and isinstance(st.targets[0], ast.Tuple) and isinstance(st.value, ast.Call) and \
+                isinstance(st.value.func, ast.Name) and st.value.func.id in [nf.name for nf in nested] and \
+                len(st.targets[0].elts) == 2 and isinstance(st.targets[0].elts[1], ast.Name):
+            ty.env[st.targets[0].elts[1].id] = "I"      # the NaN mask
     anti, n = _type_function(ctx, ft, [s for s in ft.node.body if not isinstance(s, ast.FunctionDef)], ty, "affine",
                              "find_turns")
     for s, c in anti:
@@ -303,8 +307,14 @@ def _r1_typing(ctx):
 
     # ---- FKM detector: negation only
     fk = prog.func("pylife.stress.rainflow.fkm:FKMDetector.process")
-    ty = Typer(index_names=("ir", "iz", "loop_assumed", "turns_index"))
-    ty.env["turns"] = "S"
+    ty = Typer()
+    for st in walk_stmts(fk.node.body):
+        if isinstance(st, ast.Assign) and isinstance(st.targets[0], ast.Tuple) and isinstance(st.value, ast.Call) and \
+                isinstance(st.value.func, ast.Attribute) and st.value.func.attr == "_new_turns" and len(st.targets[0].elts) == 2:
+            a, b = st.targets[0].elts
+            if isinstance(a, ast.Name) and isinstance(b, ast.Name):
+                ty.env[a.id] = "I"     # global turn indices
+                ty.env[b.id] = "S"     # turning point values
     ty.attr["_residuals"] = "S"
     ty.attr["_ir"] = "I"
     loop = [s for s in fk.node.body if isinstance(s, ast.For)][0]
